@@ -70,6 +70,7 @@ class RandomHarness(NativeHarness):
         super().__init__({}, oset_name)
         self.rng = rng
         self.magic = _magic_numbers(oset_name)
+        self._special_bytes = sorted({0, 1, 0x7F, 0x80, 0xFE, 0xFF} | {m for m in self.magic if 0 <= m <= 255})
 
     def _rec(self, name, v, enc=None):
         self.inputs[name] = enc if enc is not None else v
@@ -114,15 +115,27 @@ class RandomHarness(NativeHarness):
     def tenths(self, name, lo_k, hi_k):
         return self._rec(name, self.rng.randint(lo_k, hi_k) / 10)
 
-    def bytes(self, name, n, mutable=False):
-        v = bytes(self.rng.randrange(256) for _ in range(n))
+    def _byte(self):
+        # mostly uniform; sometimes a sentinel-like value or a small literal of the code under contract
+        if self.rng.random() < 0.2:
+            return self.rng.choice(self._special_bytes)
+        return self.rng.randrange(256)
+
+    def bytes(self, name, n, mutable=False, fixed=None):
+        raw = [self._byte() for _ in range(n)]
+        for i, val in (fixed or {}).items():
+            raw[i] = val
+        v = bytes(raw)
         self._rec(name, v, {"__bytes__": list(v)})
         return bytearray(v) if mutable else v
 
-    def abytes(self, name, ln=None, min_len=0, max_len=None):
+    def abytes(self, name, ln=None, min_len=0, max_len=None, native_fix=None):
         hi = min(max_len, 48) if max_len is not None else 48
         n = ln if isinstance(ln, int) else self.rng.randint(min_len, max(min_len, hi))
-        v = bytes(self.rng.randrange(256) for _ in range(n))
+        raw = bytearray(self._byte() for _ in range(n))
+        if native_fix is not None:
+            native_fix(raw)   # construct what the script assumes instead of hitting it by chance
+        v = bytes(raw)
         self._rec(name, v, {"__bytes__": list(v)})
         return v
 
